@@ -149,6 +149,13 @@ func wellFormed(wd gmars.WarriorData, cfg gen.AsmConfig) string {
 }
 
 func judgeAcceptCase(c acceptCase, rec *hx.Rec) string {
+	if c.Class != "boundary_length" && rc.EstimateExpansion(c.Text, c.Cfg.RC()) > 1e6 {
+		// a mutation or the soup can produce a FOR count in the millions; this check runs in-process
+		if rec != nil {
+			rec.Discard("expansion_estimate_above_bound")
+		}
+		return ""
+	}
 	wd, err, pm := compile(c.Text, asmG(c.Cfg))
 	if pm != "" {
 		return fmt.Sprintf("CompileWarrior panicked: %s\nsource: %q", pm, c.Text)
